@@ -21,17 +21,24 @@ def sh(cmd, cwd=None, env=None, timeout=3600):
 
 
 def main():
+    phase = os.environ.get("SEEDED_PHASE", "both")
     src, name = sys.argv[1], sys.argv[2]
     meta = json.load(open(os.path.join(src, "meta.json")))
     pid = meta["property"]
     pids = [pid] + sys.argv[3:]
     patch = os.path.join(src, "patch.diff")
+    repfile = os.path.join(src, "verified_by_us.json")
+    report = {}
+    if phase == "check" and os.path.exists(repfile):
+        report = json.load(open(repfile))
     wt = tempfile.mkdtemp(prefix="seedwt_", dir="/tmp")
     os.rmdir(wt)
-    rc, out = sh(f"git -C /repo worktree add -q {wt} HEAD")
+    if phase != "check" or not report:
+        rc, out = sh(f"git -C /repo worktree add -q {wt} HEAD")
     env = dict(os.environ, PYTHONPATH=wt, NUMBA_CACHE_DIR=os.path.join(wt, ".nbcache"))
-    report = {}
     try:
+        if phase == "check" and report:
+            raise StopIteration
         rc0, o0 = sh(f"/venv/bin/python {os.path.join(src, 'demo.py')}", cwd=wt, env=env, timeout=1800)
         rca, oa = sh(f"git -C {wt} apply {patch}")
         if rca != 0:
@@ -51,8 +58,14 @@ def main():
                        "tests_command": f"pytest {tests} --doctest-modules {doct}", "tests_exit": rct,
                        "tests_tail": ot.strip().splitlines()[-1] if ot.strip() else ""})
         print(f"demo unchanged rc={rc0}  changed rc={rc1}  tests rc={rct} ({report['tests_tail']})")
+        json.dump(report, open(repfile, "w"), indent=1)
+    except StopIteration:
+        print(f"(verified earlier: demo {report.get('demo_unchanged_exit')}/{report.get('demo_changed_exit')} tests rc={report.get('tests_exit')})")
     finally:
-        sh(f"git -C /repo worktree remove --force {wt}")
+        if os.path.isdir(wt):
+            sh(f"git -C /repo worktree remove --force {wt}")
+    if phase == "verify":
+        return 0
     ok = report.get("demo_unchanged_exit") == 0 and report.get("demo_changed_exit") not in (0, None) and report.get("tests_exit") == 0
     # --- our checks against it
     bak = tempfile.mkdtemp(prefix="evid_bak_")
